@@ -858,20 +858,88 @@ theorem lookup_batchGet (snap buf : List KV) (keys : List Bytes) (k : Bytes) :
       simp [List.mem_filter, hk, visible]
 
 
+
 /-! ## the abstract write buffer -/
 
-theorem release_innermost (b : Buf) : b.release b.stages.length = some b.releaseTop := by
-  obtain ⟨cur, stages⟩ := b
-  cases stages <;> simp [Buf.release, Buf.releaseTop]
+theorem release_innermost (b : Buf) : b.release b.depth = some b.releaseTop := by
+  unfold Buf.release
+  by_cases h : b.depth = 0
+  · obtain ⟨cur, marks⟩ := b
+    simp only [h, if_true]
+    have hd : ∀ ms : List Mark, stageCount ms = 0 → dropFirstStage ms = ms := by
+      intro ms
+      induction ms with
+      | nil => intro _; rfl
+      | cons m r ih =>
+        intro h0
+        simp only [stageCount] at h0
+        by_cases hm : m.isStage
+        · simp [hm] at h0
+        · simp [hm] at h0; simp [dropFirstStage, hm, ih h0]
+    simp [Buf.releaseTop, hd marks h]
+  · simp [h]
 
-theorem cleanup_innermost (b : Buf) : b.cleanup b.stages.length = some b.cleanupTop := by
-  obtain ⟨cur, stages⟩ := b
-  cases stages <;> simp [Buf.cleanup, Buf.cleanupTop]
+theorem cutAtStage_none : ∀ ms : List Mark, stageCount ms = 0 → cutAtStage ms = none := by
+  intro ms
+  induction ms with
+  | nil => intro _; rfl
+  | cons m r ih =>
+    intro h0
+    simp only [stageCount] at h0
+    by_cases hm : m.isStage
+    · simp [hm] at h0
+    · simp [hm] at h0; simp [cutAtStage, hm, ih h0]
 
-/-- every saved copy is a well formed map -/
-def Buf.WF (b : Buf) : Prop := IsMap b.cur ∧ ∀ s ∈ b.stages, IsMap s
+theorem cleanup_innermost (b : Buf) : b.cleanup b.depth = some b.cleanupTop := by
+  unfold Buf.cleanup
+  by_cases h : b.depth = 0
+  · simp only [h, if_true]
+    simp [Buf.cleanupTop, cutAtStage_none b.marks h]
+  · simp [h]
+
+/-- the content and every saved copy are well formed maps -/
+def Buf.WF (b : Buf) : Prop := IsMap b.cur ∧ ∀ m ∈ b.marks, IsMap m.saved
 
 theorem wf_empty : Buf.empty.WF := ⟨isMap_nil, by simp [Buf.empty]⟩
+
+theorem mem_dropFirstStage {ms : List Mark} {x : Mark} : x ∈ dropFirstStage ms → x ∈ ms := by
+  induction ms with
+  | nil => simp [dropFirstStage]
+  | cons m r ih =>
+    simp only [dropFirstStage]
+    split
+    · exact List.mem_cons_of_mem _
+    · intro h; rcases List.mem_cons.1 h with rfl | h
+      · exact List.mem_cons_self
+      · exact List.mem_cons_of_mem _ (ih h)
+
+theorem cutAtStage_sub {ms : List Mark} {sv : List KV} {rest : List Mark} :
+    cutAtStage ms = some (sv, rest) → (∃ m ∈ ms, m.saved = sv) ∧ ∀ x ∈ rest, x ∈ ms := by
+  induction ms with
+  | nil => simp [cutAtStage]
+  | cons m r ih =>
+    simp only [cutAtStage]
+    split
+    · intro h; cases h
+      exact ⟨⟨m, List.mem_cons_self, rfl⟩, fun x hx => List.mem_cons_of_mem _ hx⟩
+    · intro h
+      obtain ⟨⟨m', hm', e⟩, h2⟩ := ih h
+      exact ⟨⟨m', List.mem_cons_of_mem _ hm', e⟩, fun x hx => List.mem_cons_of_mem _ (h2 x hx)⟩
+
+theorem cutAtCp_sub {i : Nat} {ms : List Mark} {sv : List KV} {rest : List Mark} :
+    cutAtCp i ms = some (sv, rest) → (∃ m ∈ ms, m.saved = sv) ∧ ∀ x ∈ rest, x ∈ ms := by
+  induction ms with
+  | nil => simp [cutAtCp]
+  | cons m r ih =>
+    simp only [cutAtCp]
+    split
+    · simp
+    · split
+      · intro h; cases h
+        exact ⟨⟨m, List.mem_cons_self, rfl⟩, fun x hx => hx⟩
+      · intro h
+        obtain ⟨⟨m', hm', e⟩, h2⟩ := ih h
+        exact ⟨⟨m', List.mem_cons_of_mem _ hm', e⟩, fun x hx => List.mem_cons_of_mem _ (h2 x hx)⟩
 
 theorem wf_apply (b : Buf) (op : BOp) (h : b.WF) : (b.apply op).WF := by
   obtain ⟨hc, hs⟩ := h
@@ -882,23 +950,34 @@ theorem wf_apply (b : Buf) (op : BOp) (h : b.WF) : (b.apply op).WF := by
     · exact ⟨mapSet_sorted k v _ hc, hs⟩
   | del k => exact ⟨mapSet_sorted k [] _ hc, hs⟩
   | staging =>
-    refine ⟨hc, fun s hs' => ?_⟩
-    simp only [Buf.apply, Buf.staging] at hs'
-    rcases List.mem_cons.1 hs' with rfl | h
+    refine ⟨hc, fun m hm => ?_⟩
+    simp only [Buf.apply, Buf.staging] at hm
+    rcases List.mem_cons.1 hm with rfl | h
     · exact hc
-    · exact hs s h
-  | release =>
-    refine ⟨hc, fun s hs' => ?_⟩
-    simp only [Buf.apply, Buf.releaseTop] at hs'
-    exact hs s (List.mem_of_mem_tail hs')
+    · exact hs m h
+  | checkpoint =>
+    refine ⟨hc, fun m hm => ?_⟩
+    simp only [Buf.apply, Buf.checkpoint] at hm
+    rcases List.mem_cons.1 hm with rfl | h
+    · exact hc
+    · exact hs m h
+  | release => exact ⟨hc, fun m hm => hs m (mem_dropFirstStage hm)⟩
   | cleanup =>
     simp only [Buf.apply, Buf.cleanupTop]
-    cases hst : b.stages with
-    | nil => simp only; exact ⟨hc, by simp [hst]⟩
-    | cons s r =>
-      simp only
-      rw [hst] at hs
-      exact ⟨hs s List.mem_cons_self, fun x hx => hs x (List.mem_cons_of_mem _ hx)⟩
+    cases hcut : cutAtStage b.marks with
+    | none => exact ⟨hc, hs⟩
+    | some p =>
+      obtain ⟨sv, rest⟩ := p
+      obtain ⟨⟨m, hm, e⟩, h2⟩ := cutAtStage_sub hcut
+      exact ⟨e ▸ hs m hm, fun x hx => hs x (h2 x hx)⟩
+  | revert i =>
+    simp only [Buf.apply, Buf.revert]
+    cases hcut : cutAtCp i b.marks with
+    | none => exact ⟨hc, hs⟩
+    | some p =>
+      obtain ⟨sv, rest⟩ := p
+      obtain ⟨⟨m, hm, e⟩, h2⟩ := cutAtCp_sub hcut
+      exact ⟨e ▸ hs m hm, fun x hx => hs x (h2 x hx)⟩
 
 theorem wf_run (b : Buf) (ops : List BOp) (h : b.WF) : (b.run ops).WF := by
   induction ops generalizing b with
@@ -916,93 +995,190 @@ theorem lookup_append (a b : List KV) (k : Bytes) :
     simp only [List.cons_append, lookup]
     split <;> simp [ih]
 
-/-- the content and every saved copy answer `lookup` like the write logs below them -/
-def Refines : List KV → List (List KV) → List (List KV) → Prop
-  | cur, [], [l] => ∀ k, lookup cur k = lookup l k
-  | cur, s :: ss, l :: ls => (∀ k, lookup cur k = lookup (l ++ ls.flatten) k) ∧ Refines s ss ls
-  | _, _, _ => False
+theorem liveOf_cons (s : Seg) (ss : List Seg) (base : List KV) : liveOf (s :: ss) base = s.log ++ liveOf ss base := by
+  simp [liveOf]
 
-theorem refines_lookup {cur : List KV} {stages st : List (List KV)} (h : Refines cur stages st) (k : Bytes) :
-    lookup cur k = lookup st.flatten k := by
-  cases stages with
+/-- the content answers `lookup` like all live writes, and every mark's saved copy like the writes below it -/
+def Refines : List KV → List Mark → List Seg → List KV → Prop
+  | cur, [], [], base => ∀ k, lookup cur k = lookup base k
+  | cur, m :: ms, s :: ss, base =>
+    m.isStage = s.isStage ∧ (∀ k, lookup cur k = lookup (s.log ++ liveOf ss base) k) ∧ Refines m.saved ms ss base
+  | _, _, _, _ => False
+
+theorem refines_lookup {cur : List KV} {ms : List Mark} {ss : List Seg} {base : List KV}
+    (h : Refines cur ms ss base) (k : Bytes) : lookup cur k = lookup (liveOf ss base) k := by
+  match ms, ss, h with
+  | [], [], h => simpa [liveOf] using h k
+  | m :: ms, s :: ss, h => rw [liveOf_cons]; exact h.2.1 k
+
+theorem refines_cpCount {cur : List KV} {ms : List Mark} {ss : List Seg} {base : List KV}
+    (h : Refines cur ms ss base) : cpCount ms = segCps ss := by
+  induction ms generalizing cur ss with
   | nil =>
-    match st, h with
-    | [l], h => simpa using h k
-  | cons s ss =>
-    match st, h with
-    | l :: ls, h => simpa using h.1 k
+    match ss, h with
+    | [], _ => rfl
+  | cons m ms ih =>
+    match ss, h with
+    | s :: ss, h => simp [cpCount, segCps, h.1, ih h.2.2]
 
-theorem refines_write (k v : Bytes) {cur : List KV} {stages : List (List KV)} {l : List KV} {ls : List (List KV)}
-    (h : Refines cur stages (l :: ls)) : Refines (mapSet k v cur) stages (((k, v) :: l) :: ls) := by
-  cases stages with
+theorem refines_write (k v : Bytes) {cur : List KV} {ms : List Mark} {ss : List Seg} {base : List KV}
+    (h : Refines cur ms ss base) :
+    Refines (mapSet k v cur) ms (pushWrite (k, v) ⟨ss, base⟩).segs (pushWrite (k, v) ⟨ss, base⟩).base := by
+  match ms, ss, h with
+  | [], [], h =>
+    intro k'
+    simp only [pushWrite, lookup_mapSet, lookup, h k']
+  | m :: ms, s :: ss, h =>
+    refine ⟨h.1, fun k' => ?_, h.2.2⟩
+    simp only [pushWrite, lookup_mapSet, List.cons_append, lookup, h.2.1 k']
+
+theorem liveOf_appendBelow (log : List KV) (ss : List Seg) (base : List KV) :
+    liveOf (appendBelow log ss base).1 (appendBelow log ss base).2 = log ++ liveOf ss base := by
+  cases ss with
+  | nil => simp [appendBelow, liveOf]
+  | cons t r => simp [appendBelow, liveOf]
+
+theorem refines_release {cur : List KV} {ms : List Mark} {ss : List Seg} {base : List KV}
+    (h : Refines cur ms ss base) :
+    match releaseSegs ss base with
+    | some (ss', base') => Refines cur (dropFirstStage ms) ss' base' ∧ liveOf ss' base' = liveOf ss base
+    | none => dropFirstStage ms = ms := by
+  induction ms generalizing cur ss with
   | nil =>
-    match ls, h with
-    | [], h =>
-      intro k'
-      simp only [lookup_mapSet, lookup, h k']
-  | cons s ss =>
-    refine ⟨fun k' => ?_, h.2⟩
-    simp only [lookup_mapSet, List.cons_append, lookup, h.1 k']
+    match ss, h with
+    | [], _ => simp [releaseSegs, dropFirstStage]
+  | cons m ms ih =>
+    match ss, h with
+    | s :: ss, h =>
+      obtain ⟨hk, hl, hr⟩ := h
+      simp only [releaseSegs, dropFirstStage, hk]
+      by_cases hs : s.isStage
+      · simp only [hs, if_true]
+        refine ⟨?_, by rw [liveOf_appendBelow, liveOf_cons]⟩
+        match ms, ss, hr with
+        | [], [], hr =>
+          intro k; simpa [appendBelow, liveOf] using hl k
+        | m' :: ms', t :: r, hr =>
+          exact ⟨hr.1, fun k => by simpa [appendBelow, List.append_assoc, liveOf_cons] using hl k, hr.2.2⟩
+      · simp only [hs, Bool.false_eq_true, if_false]
+        have := ih hr
+        cases hrel : releaseSegs ss base with
+        | none =>
+          rw [hrel] at this
+          simp [this]
+        | some p =>
+          obtain ⟨ss', base'⟩ := p
+          rw [hrel] at this
+          simp only
+          refine ⟨⟨hk, fun k => ?_, this.1⟩, ?_⟩
+          · rw [this.2]; exact hl k
+          · rw [liveOf_cons, liveOf_cons, this.2]
 
-theorem refines_apply (b : Buf) (op : BOp) (st : List (List KV)) (h : Refines b.cur b.stages st) :
-    Refines (b.apply op).cur (b.apply op).stages (stepLog st op) := by
-  obtain ⟨cur, stages⟩ := b
+theorem refines_cleanup {cur : List KV} {ms : List Mark} {ss : List Seg} {base : List KV}
+    (h : Refines cur ms ss base) :
+    match cutAtStage ms, cleanupSegs ss with
+    | some (sv, rest), some ss' => Refines sv rest ss' base
+    | none, none => True
+    | _, _ => False := by
+  induction ms generalizing cur ss with
+  | nil =>
+    match ss, h with
+    | [], _ => simp [cutAtStage, cleanupSegs]
+  | cons m ms ih =>
+    match ss, h with
+    | s :: ss, h =>
+      obtain ⟨hk, hl, hr⟩ := h
+      simp only [cutAtStage, cleanupSegs, hk]
+      by_cases hs : s.isStage
+      · simp only [hs, if_true]; exact hr
+      · simp only [hs, Bool.false_eq_true, if_false]; exact ih hr
+
+theorem refines_revert (i : Nat) {cur : List KV} {ms : List Mark} {ss : List Seg} {base : List KV}
+    (h : Refines cur ms ss base) :
+    match cutAtCp i ms, revertSegs i ss with
+    | some (sv, rest), some ss' => Refines sv rest ss' base
+    | none, none => True
+    | _, _ => False := by
+  induction ms generalizing cur ss with
+  | nil =>
+    match ss, h with
+    | [], _ => simp [cutAtCp, revertSegs]
+  | cons m ms ih =>
+    match ss, h with
+    | s :: ss, h =>
+      obtain ⟨hk, hl, hr⟩ := h
+      simp only [cutAtCp, revertSegs, hk, refines_cpCount hr]
+      by_cases hs : s.isStage
+      · simp [hs]
+      · simp only [hs, Bool.false_eq_true, if_false]
+        by_cases hi : segCps ss = i
+        · simp only [hi, if_true]
+          exact ⟨by simp [hk, hs], fun k => by simpa using refines_lookup hr k, hr⟩
+        · simp only [hi, if_false]; exact ih hr
+
+theorem refines_apply (b : Buf) (op : BOp) (st : LogState) (h : Refines b.cur b.marks st.segs st.base) :
+    Refines (b.apply op).cur (b.apply op).marks (stepLog st op).segs (stepLog st op).base := by
+  obtain ⟨cur, ms⟩ := b
+  obtain ⟨ss, base⟩ := st
   simp only at h
   cases op with
   | set k v =>
-    match st, h with
-    | l :: ls, h =>
-      simp only [Buf.apply, stepLog]
-      by_cases hv : v = []
-      · subst hv; simpa using h
-      · have : v.isEmpty = false := by simpa [List.isEmpty_iff] using hv
-        simp only [this, hv, if_false]
-        exact refines_write k v h
-    | [], h => cases stages <;> simp [Refines] at h
-  | del k =>
-    match st, h with
-    | l :: ls, h => exact refines_write k [] h
-    | [], h => cases stages <;> simp [Refines] at h
+    simp only [Buf.apply, stepLog]
+    by_cases hv : v = []
+    · subst hv; simpa using h
+    · have : v.isEmpty = false := by simpa [List.isEmpty_iff] using hv
+      simp only [this, hv, if_false, Bool.false_eq_true]
+      exact refines_write k v h
+  | del k => exact refines_write k [] h
   | staging =>
     simp only [Buf.apply, Buf.staging, stepLog]
-    exact ⟨fun k => by simpa using refines_lookup h k, h⟩
+    exact ⟨rfl, fun k => by simpa using refines_lookup h k, h⟩
+  | checkpoint =>
+    simp only [Buf.apply, Buf.checkpoint, stepLog]
+    exact ⟨rfl, fun k => by simpa using refines_lookup h k, h⟩
   | release =>
-    cases stages with
-    | nil =>
-      match st, h with
-      | [l], h => simpa [Buf.apply, Buf.releaseTop, stepLog] using h
-    | cons s ss =>
-      match st, h with
-      | [l], h => simp [Refines] at h
-      | l :: l₂ :: r, h =>
-        simp only [Buf.apply, Buf.releaseTop, stepLog, List.tail_cons]
-        obtain ⟨h1, h2⟩ := h
-        cases ss with
-        | nil =>
-          match r, h2 with
-          | [], h2 => intro k; simpa using h1 k
-        | cons s' ss' =>
-          exact ⟨fun k => by simpa [List.append_assoc] using h1 k, h2.2⟩
+    have := refines_release h
+    simp only [Buf.apply, Buf.releaseTop, stepLog]
+    cases hrel : releaseSegs ss base with
+    | none => rw [hrel] at this; simp only at this ⊢; rw [this]; exact h
+    | some p => obtain ⟨ss', base'⟩ := p; rw [hrel] at this; exact this.1
   | cleanup =>
-    cases stages with
-    | nil =>
-      match st, h with
-      | [l], h => simpa [Buf.apply, Buf.cleanupTop, stepLog] using h
-    | cons s ss =>
-      match st, h with
-      | [l], h => simp [Refines] at h
-      | l :: l₂ :: r, h => exact h.2
+    have := refines_cleanup h
+    simp only [Buf.apply, Buf.cleanupTop, stepLog]
+    cases h1 : cutAtStage ms with
+    | none =>
+      cases h2 : cleanupSegs ss with
+      | none => simpa using h
+      | some ss' => rw [h1, h2] at this; exact absurd this id
+    | some p =>
+      obtain ⟨sv, rest⟩ := p
+      cases h2 : cleanupSegs ss with
+      | none => rw [h1, h2] at this; exact absurd this id
+      | some ss' => rw [h1, h2] at this; exact this
+  | revert i =>
+    have := refines_revert i h
+    simp only [Buf.apply, Buf.revert, stepLog]
+    cases h1 : cutAtCp i ms with
+    | none =>
+      cases h2 : revertSegs i ss with
+      | none => simpa using h
+      | some ss' => rw [h1, h2] at this; exact absurd this id
+    | some p =>
+      obtain ⟨sv, rest⟩ := p
+      cases h2 : revertSegs i ss with
+      | none => rw [h1, h2] at this; exact absurd this id
+      | some ss' => rw [h1, h2] at this; exact this
 
-theorem refines_run (b : Buf) (ops : List BOp) (st : List (List KV)) (h : Refines b.cur b.stages st) :
-    Refines (b.run ops).cur (b.run ops).stages (ops.foldl stepLog st) := by
+theorem refines_run (b : Buf) (ops : List BOp) (st : LogState) (h : Refines b.cur b.marks st.segs st.base) :
+    Refines (b.run ops).cur (b.run ops).marks (ops.foldl stepLog st).segs (ops.foldl stepLog st).base := by
   induction ops generalizing b st with
   | nil => exact h
   | cons op r ih => exact ih _ _ (refines_apply b op st h)
 
 theorem run_lookup (ops : List BOp) (k : Bytes) :
     lookup (Buf.empty.run ops).cur k = lookup (liveWrites ops) k := by
-  have h0 : Refines Buf.empty.cur Buf.empty.stages [[]] := by intro k; rfl
-  exact refines_lookup (refines_run Buf.empty ops [[]] h0) k
+  have h0 : Refines Buf.empty.cur Buf.empty.marks [] [] := by intro k; rfl
+  exact refines_lookup (refines_run Buf.empty ops ⟨[], []⟩ h0) k
 
 theorem viewGet_congr (snap : List KV) {b₁ b₂ : List KV} (h : ∀ k, lookup b₁ k = lookup b₂ k) (k : Bytes) :
     viewGet snap b₁ k = viewGet snap b₂ k := by simp [viewGet, h k]
@@ -1013,79 +1189,352 @@ theorem viewDir_congr (snap : List KV) {b₁ b₂ : List KV} (h : ∀ k, lookup 
   rintro ⟨k, v⟩
   rw [viewDir_mem_iff, viewDir_mem_iff, viewGet_congr snap h]
 
-/-! ### bracketed blocks leave the levels below them alone -/
+theorem run_append (b : Buf) (o₁ o₂ : List BOp) : b.run (o₁ ++ o₂) = (b.run o₁).run o₂ := by
+  simp [Buf.run, List.foldl_append]
 
-theorem run_bracket (ops : List BOp) : ∀ (d d' : Nat) (cur : List KV) (top base : List (List KV)),
-    top.length = d → netDepth d ops = some d' →
-    ∃ cur' top', (Buf.run ⟨cur, top ++ base⟩ ops) = ⟨cur', top' ++ base⟩ ∧ top'.length = d' := by
+
+/-! ### blocks: what happens above an undo mark leaves the mark and everything below it alone -/
+
+theorem cpCount_append (a b : List Mark) : cpCount (a ++ b) = cpCount a + cpCount b := by
+  induction a with
+  | nil => simp [cpCount]
+  | cons m r ih => simp [cpCount, ih]; omega
+
+theorem dropFirstStage_top (tail : List Mark) : ∀ (top : List Mark) (d : Nat), stageCount top = d + 1 →
+    ∃ top', dropFirstStage (top ++ tail) = top' ++ tail ∧ stageCount top' = d := by
+  intro top
+  induction top with
+  | nil => intro d h; simp [stageCount] at h
+  | cons m r ih =>
+    intro d h
+    simp only [stageCount] at h
+    by_cases hm : m.isStage
+    · simp only [hm, if_true] at h
+      exact ⟨r, by simp [dropFirstStage, hm], by omega⟩
+    · simp only [hm, Bool.false_eq_true, if_false, Nat.zero_add] at h
+      obtain ⟨top', h1, h2⟩ := ih d h
+      exact ⟨m :: top', by simp [dropFirstStage, hm, h1], by simp [stageCount, hm, h2]⟩
+
+theorem cutAtStage_top (tail : List Mark) : ∀ (top : List Mark) (d : Nat), stageCount top = d + 1 →
+    ∃ sv top', cutAtStage (top ++ tail) = some (sv, top' ++ tail) ∧ stageCount top' = d := by
+  intro top
+  induction top with
+  | nil => intro d h; simp [stageCount] at h
+  | cons m r ih =>
+    intro d h
+    simp only [stageCount] at h
+    by_cases hm : m.isStage
+    · simp only [hm, if_true] at h
+      exact ⟨m.saved, r, by simp [cutAtStage, hm], by omega⟩
+    · simp only [hm, Bool.false_eq_true, if_false, Nat.zero_add] at h
+      obtain ⟨sv, top', h1, h2⟩ := ih d h
+      exact ⟨sv, top', by simp [cutAtStage, hm, h1], h2⟩
+
+theorem cutAtCp_none_of_le (j : Nat) : ∀ ms : List Mark, cpCount ms ≤ j → cutAtCp j ms = none := by
+  intro ms
+  induction ms with
+  | nil => intro _; rfl
+  | cons m r ih =>
+    intro h
+    simp only [cutAtCp]
+    by_cases hm : m.isStage
+    · simp [hm]
+    · simp only [cpCount, hm, Bool.false_eq_true, if_false] at h
+      have : cpCount r ≠ j := by omega
+      simp only [hm, Bool.false_eq_true, if_false, this]
+      exact ih (by omega)
+
+/-- a revert issued above the floor mark `fm` either is refused or cuts inside `top` (or exactly at `fm`) -/
+theorem cutAtCp_top (fm : Mark) (rest : List Mark) (j : Nat)
+    (hfloor : fm.isStage = true ∨ (fm.isStage = false ∧ cpCount rest ≤ j)) :
+    ∀ top : List Mark, cutAtCp j (top ++ fm :: rest) = none ∨
+      ∃ sv top', cutAtCp j (top ++ fm :: rest) = some (sv, top' ++ fm :: rest) ∧ stageCount top' = stageCount top := by
+  intro top
+  induction top with
+  | nil =>
+    simp only [List.nil_append, cutAtCp]
+    rcases hfloor with hs | ⟨hs, hle⟩
+    · simp [hs]
+    · simp only [hs, Bool.false_eq_true, if_false]
+      by_cases he : cpCount rest = j
+      · exact Or.inr ⟨fm.saved, [], by simp [he], rfl⟩
+      · simp only [he, if_false]
+        exact Or.inl (cutAtCp_none_of_le j rest hle)
+  | cons m r ih =>
+    simp only [List.cons_append, cutAtCp]
+    by_cases hm : m.isStage
+    · simp [hm]
+    · simp only [hm, Bool.false_eq_true, if_false]
+      by_cases he : cpCount (r ++ fm :: rest) = j
+      · exact Or.inr ⟨m.saved, m :: r, by simp [he], rfl⟩
+      · simp only [he, if_false]
+        rcases ih with h | ⟨sv, top', h1, h2⟩
+        · exact Or.inl h
+        · exact Or.inr ⟨sv, top', h1, by simp [stageCount, hm, h2]⟩
+
+theorem revertsAtLeast_cons {i : Nat} {op : BOp} {r : List BOp} (h : RevertsAtLeast i (op :: r)) :
+    op.revertsAtLeast i = true ∧ RevertsAtLeast i r :=
+  ⟨h op List.mem_cons_self, fun o ho => h o (List.mem_cons_of_mem _ ho)⟩
+
+theorem run_block (fm : Mark) (rest : List Mark) (ops : List BOp) :
+    ∀ (d d' : Nat) (cur : List KV) (top : List Mark),
+    stageCount top = d → netDepth d ops = some d' →
+    (fm.isStage = true ∨ (fm.isStage = false ∧ RevertsAtLeast (cpCount rest) ops)) →
+    ∃ cur' top', Buf.run ⟨cur, top ++ fm :: rest⟩ ops = ⟨cur', top' ++ fm :: rest⟩ ∧ stageCount top' = d' := by
   induction ops with
-  | nil => intro d d' cur top base hl hn; simp [netDepth] at hn; subst hn; exact ⟨cur, top, rfl, hl⟩
+  | nil => intro d d' cur top hl hn _; simp [netDepth] at hn; subst hn; exact ⟨cur, top, rfl, hl⟩
   | cons op r ih =>
-    intro d d' cur top base hl hn
+    intro d d' cur top hl hn hf
+    have hf' : fm.isStage = true ∨ (fm.isStage = false ∧ RevertsAtLeast (cpCount rest) r) := by
+      rcases hf with h | ⟨h1, h2⟩
+      · exact Or.inl h
+      · exact Or.inr ⟨h1, (revertsAtLeast_cons h2).2⟩
     cases op with
     | set k v =>
       simp only [netDepth] at hn
       simp only [Buf.run, List.foldl_cons, Buf.apply]
       split
-      · exact ih d d' cur top base hl hn
-      · exact ih d d' _ top base hl hn
+      · exact ih d d' cur top hl hn hf'
+      · exact ih d d' _ top hl hn hf'
     | del k =>
       simp only [netDepth] at hn
-      exact ih d d' _ top base hl hn
+      exact ih d d' _ top hl hn hf'
     | staging =>
       simp only [netDepth] at hn
-      have := ih (d + 1) d' cur (cur :: top) base (by simp [hl]) hn
+      have := ih (d + 1) d' cur (⟨true, cur⟩ :: top) (by simp [stageCount, hl]; omega) hn hf'
       simpa [Buf.run, Buf.apply, Buf.staging] using this
+    | checkpoint =>
+      simp only [netDepth] at hn
+      have := ih d d' cur (⟨false, cur⟩ :: top) (by simp [stageCount, hl]) hn hf'
+      simpa [Buf.run, Buf.apply, Buf.checkpoint] using this
     | release =>
-      cases top with
-      | nil => simp at hl; subst hl; simp [netDepth] at hn
-      | cons t ts =>
-        simp at hl; subst hl
+      cases d with
+      | zero => simp [netDepth] at hn
+      | succ d =>
         simp only [netDepth] at hn
-        have := ih ts.length d' cur ts base rfl hn
-        simpa [Buf.run, Buf.apply, Buf.releaseTop] using this
+        obtain ⟨top', h1, h2⟩ := dropFirstStage_top (fm :: rest) top d hl
+        have := ih d d' cur top' h2 hn hf'
+        simpa [Buf.run, Buf.apply, Buf.releaseTop, h1] using this
     | cleanup =>
-      cases top with
-      | nil => simp at hl; subst hl; simp [netDepth] at hn
-      | cons t ts =>
-        simp at hl; subst hl
+      cases d with
+      | zero => simp [netDepth] at hn
+      | succ d =>
         simp only [netDepth] at hn
-        have := ih ts.length d' t ts base rfl hn
-        simpa [Buf.run, Buf.apply, Buf.cleanupTop] using this
+        obtain ⟨sv, top', h1, h2⟩ := cutAtStage_top (fm :: rest) top d hl
+        have := ih d d' sv top' h2 hn hf'
+        simpa [Buf.run, Buf.apply, Buf.cleanupTop, h1] using this
+    | revert j =>
+      simp only [netDepth] at hn
+      have hfloor : fm.isStage = true ∨ (fm.isStage = false ∧ cpCount rest ≤ j) := by
+        rcases hf with h | ⟨h1, h2⟩
+        · exact Or.inl h
+        · have := (revertsAtLeast_cons h2).1
+          simp [BOp.revertsAtLeast] at this
+          exact Or.inr ⟨h1, this⟩
+      rcases cutAtCp_top fm rest j hfloor top with h | ⟨sv, top', h1, h2⟩
+      · have := ih d d' cur top hl hn hf'
+        simpa [Buf.run, Buf.apply, Buf.revert, h] using this
+      · have := ih d d' sv top' (h2.trans hl) hn hf'
+        simpa [Buf.run, Buf.apply, Buf.revert, h1] using this
 
-theorem run_append (b : Buf) (o₁ o₂ : List BOp) : b.run (o₁ ++ o₂) = (b.run o₁).run o₂ := by
-  simp [Buf.run, List.foldl_append]
+theorem cutAtStage_floor (fm : Mark) (rest : List Mark) (hfm : fm.isStage = true) :
+    ∀ top : List Mark, stageCount top = 0 → cutAtStage (top ++ fm :: rest) = some (fm.saved, rest) := by
+  intro top
+  induction top with
+  | nil => intro _; simp [cutAtStage, hfm]
+  | cons m r ih =>
+    intro h
+    simp only [stageCount] at h
+    by_cases hm : m.isStage
+    · simp [hm] at h
+    · simp [hm] at h; simp [cutAtStage, hm, ih h]
 
-theorem staging_block (b : Buf) (ops : List BOp) (h : Bracketed ops) :
-    ∃ cur', b.run (.staging :: ops) = ⟨cur', b.cur :: b.stages⟩ := by
-  obtain ⟨cur', top', h1, h2⟩ := run_bracket ops 0 0 b.cur [] (b.cur :: b.stages) rfl h
-  have : top' = [] := List.eq_nil_of_length_eq_zero h2
-  subst this
-  exact ⟨cur', by simpa [Buf.run, Buf.apply, Buf.staging] using h1⟩
+theorem dropFirstStage_floor (fm : Mark) (rest : List Mark) (hfm : fm.isStage = true) :
+    ∀ top : List Mark, stageCount top = 0 → dropFirstStage (top ++ fm :: rest) = top ++ rest := by
+  intro top
+  induction top with
+  | nil => intro _; simp [dropFirstStage, hfm]
+  | cons m r ih =>
+    intro h
+    simp only [stageCount] at h
+    by_cases hm : m.isStage
+    · simp [hm] at h
+    · simp [hm] at h; simp [dropFirstStage, hm, ih h]
+
+theorem cutAtCp_floor (fm : Mark) (rest : List Mark) (hfm : fm.isStage = false) :
+    ∀ top : List Mark, stageCount top = 0 →
+      cutAtCp (cpCount rest) (top ++ fm :: rest) = some (fm.saved, fm :: rest) := by
+  intro top
+  induction top with
+  | nil => intro _; simp [cutAtCp, hfm]
+  | cons m r ih =>
+    intro h
+    simp only [stageCount] at h
+    by_cases hm : m.isStage
+    · simp [hm] at h
+    · simp [hm] at h
+      have : cpCount (r ++ fm :: rest) ≠ cpCount rest := by
+        rw [cpCount_append]; simp [cpCount, hfm]; omega
+      simp [cutAtCp, hm, this, ih h]
+
+theorem stageCount_zero_iff (top : List Mark) : stageCount top = 0 ↔ ∀ m ∈ top, m.isStage = false := by
+  induction top with
+  | nil => simp [stageCount]
+  | cons m r ih =>
+    simp only [stageCount, List.mem_cons, forall_eq_or_imp]
+    by_cases hm : m.isStage
+    · simp [hm]
+    · simp [hm, ih]
 
 
-theorem run_writes_stages (b : Buf) (ops : List BOp) (h : WritesOnly ops) : (b.run ops).stages = b.stages := by
-  induction ops generalizing b with
+
+/-! ### blocks above a checkpoint: older staging levels may be released meanwhile -/
+
+theorem cpCount_dropFirstStage (ms : List Mark) : cpCount (dropFirstStage ms) = cpCount ms := by
+  induction ms with
   | nil => rfl
+  | cons m r ih =>
+    simp only [dropFirstStage]
+    by_cases hm : m.isStage
+    · simp [hm, cpCount]
+    · simp [hm, cpCount, ih]
+
+theorem dropFirstStage_below (fm : Mark) (rest : List Mark) (hfm : fm.isStage = false) :
+    ∀ top : List Mark, stageCount top = 0 →
+      dropFirstStage (top ++ fm :: rest) = top ++ fm :: dropFirstStage rest := by
+  intro top
+  induction top with
+  | nil => intro _; simp [dropFirstStage, hfm]
+  | cons m r ih =>
+    intro h
+    simp only [stageCount] at h
+    by_cases hm : m.isStage
+    · simp [hm] at h
+    · simp [hm] at h; simp [dropFirstStage, hm, ih h]
+
+theorem dropStages_succ (n : Nat) (ms : List Mark) : dropStages (n + 1) ms = dropFirstStage (dropStages n ms) := by
+  induction n generalizing ms with
+  | zero => rfl
+  | succ n ih => simp only [dropStages] at ih ⊢; exact ih (dropFirstStage ms)
+
+theorem cpCount_dropStages (n : Nat) (ms : List Mark) : cpCount (dropStages n ms) = cpCount ms := by
+  induction n generalizing ms with
+  | zero => rfl
+  | succ n ih => simp [dropStages, ih, cpCount_dropFirstStage]
+
+theorem run_block_cp (fm : Mark) (hfm : fm.isStage = false) (ops : List BOp) :
+    ∀ (d n d' n' : Nat) (cur : List KV) (top rest : List Mark),
+    stageCount top = d → cpBlock d n ops = some (d', n') → RevertsAtLeast (cpCount rest) ops →
+    ∃ cur' top' k, Buf.run ⟨cur, top ++ fm :: rest⟩ ops = ⟨cur', top' ++ fm :: dropStages k rest⟩ ∧
+      stageCount top' = d' ∧ n + k = n' := by
+  induction ops with
+  | nil =>
+    intro d n d' n' cur top rest hl hn _
+    simp [cpBlock] at hn
+    exact ⟨cur, top, 0, rfl, hn.1 ▸ hl, hn.2⟩
   | cons op r ih =>
-    have hop := h op List.mem_cons_self
-    have hr : WritesOnly r := fun o ho => h o (List.mem_cons_of_mem _ ho)
+    intro d n d' n' cur top rest hl hn hf
+    have hf' := (revertsAtLeast_cons hf).2
     cases op with
     | set k v =>
-      simp only [Buf.run, List.foldl_cons]
-      have := ih (b.apply (.set k v)) hr
-      simp only [Buf.run] at this
-      rw [this]; simp only [Buf.apply]; split <;> rfl
+      simp only [cpBlock] at hn
+      simp only [Buf.run, List.foldl_cons, Buf.apply]
+      split
+      · exact ih d n d' n' cur top rest hl hn hf'
+      · exact ih d n d' n' _ top rest hl hn hf'
     | del k =>
-      simp only [Buf.run, List.foldl_cons]
-      have := ih (b.apply (.del k)) hr
-      simp only [Buf.run] at this
-      rw [this]; rfl
-    | staging => simp [BOp.isWrite] at hop
-    | release => simp [BOp.isWrite] at hop
-    | cleanup => simp [BOp.isWrite] at hop
+      simp only [cpBlock] at hn
+      exact ih d n d' n' _ top rest hl hn hf'
+    | staging =>
+      simp only [cpBlock] at hn
+      have := ih (d + 1) n d' n' cur (⟨true, cur⟩ :: top) rest (by simp [stageCount, hl]; omega) hn hf'
+      simpa [Buf.run, Buf.apply, Buf.staging] using this
+    | checkpoint =>
+      simp only [cpBlock] at hn
+      have := ih d n d' n' cur (⟨false, cur⟩ :: top) rest (by simp [stageCount, hl]) hn hf'
+      simpa [Buf.run, Buf.apply, Buf.checkpoint] using this
+    | release =>
+      cases d with
+      | zero =>
+        simp only [cpBlock] at hn
+        have hf'' : RevertsAtLeast (cpCount (dropFirstStage rest)) r := by rw [cpCount_dropFirstStage]; exact hf'
+        obtain ⟨cur', top', k, h1, h2, h3⟩ := ih 0 (n + 1) d' n' cur top (dropFirstStage rest) hl hn hf''
+        refine ⟨cur', top', k + 1, ?_, h2, by omega⟩
+        simp only [Buf.run, List.foldl_cons, Buf.apply, Buf.releaseTop, dropFirstStage_below fm rest hfm top hl]
+        simpa [Buf.run, dropStages] using h1
+      | succ d =>
+        simp only [cpBlock] at hn
+        obtain ⟨top', h1, h2⟩ := dropFirstStage_top (fm :: rest) top d hl
+        have := ih d n d' n' cur top' rest h2 hn hf'
+        simpa [Buf.run, Buf.apply, Buf.releaseTop, h1] using this
+    | cleanup =>
+      cases d with
+      | zero => simp [cpBlock] at hn
+      | succ d =>
+        simp only [cpBlock] at hn
+        obtain ⟨sv, top', h1, h2⟩ := cutAtStage_top (fm :: rest) top d hl
+        have := ih d n d' n' sv top' rest h2 hn hf'
+        simpa [Buf.run, Buf.apply, Buf.cleanupTop, h1] using this
+    | revert j =>
+      simp only [cpBlock] at hn
+      have hfloor : fm.isStage = true ∨ (fm.isStage = false ∧ cpCount rest ≤ j) := by
+        have := (revertsAtLeast_cons hf).1
+        simp [BOp.revertsAtLeast] at this
+        exact Or.inr ⟨hfm, this⟩
+      rcases cutAtCp_top fm rest j hfloor top with h | ⟨sv, top', h1, h2⟩
+      · have := ih d n d' n' cur top rest hl hn hf'
+        simpa [Buf.run, Buf.apply, Buf.revert, h] using this
+      · have := ih d n d' n' sv top' rest (h2.trans hl) hn hf'
+        simpa [Buf.run, Buf.apply, Buf.revert, h1] using this
 
-/-! ## the loop of batch_getter.go as found: right exactly when no key is listed twice -/
+/-! ### the result of batch get is a well formed map -/
+
+theorem snapBatchLoop_sorted (snap : List KV) (ks : List Bytes) (m : List KV) : IsMap m → IsMap (snapBatchLoop snap ks m) := by
+  induction ks generalizing m with
+  | nil => simp [snapBatchLoop]
+  | cons x xs ih =>
+    intro h
+    simp only [snapBatchLoop]
+    cases visible (lookup snap x) with
+    | some v => exact ih _ (mapSet_sorted x v m h)
+    | none => exact ih _ h
+
+theorem mergeInto_sorted (a m : List KV) : IsMap m → IsMap (mergeInto a m) := by
+  induction a with
+  | nil => simp [mergeInto]
+  | cons h t ih =>
+    obtain ⟨k, v⟩ := h
+    intro hm
+    exact mapSet_sorted k v _ (ih hm)
+
+theorem batchGet_sorted (snap buf : List KV) (keys : List Bytes) : IsMap (batchGet snap buf keys) := by
+  unfold batchGet
+  simp only
+  split
+  · exact snapBatchLoop_sorted snap keys [] isMap_nil
+  · exact mergeInto_sorted _ _ (List.Pairwise.filter _ (bufBatchGet_sorted buf keys))
+
+/-! ## regression record: the loop of batch_getter.go BEFORE fix cbfc345
+
+It removed a tombstone from `bufferValues` inside the loop over the requested keys, so a second occurrence of the
+same key looked like a buffer miss and went to the snapshot.  Kept here (not in Model/: this code no longer exists)
+to document why the order of the two passes matters: right exactly when no key is listed twice. -/
+
+def mapErase (k : Bytes) (m : List KV) : List KV := m.filter fun kv => kv.1 ≠ k
+
+def shrinkLoopBeforeFix : List Bytes → List KV → List Bytes → List KV × List Bytes
+  | [], m, sk => (m, sk)
+  | k :: ks, m, sk =>
+    match lookup m k with
+    | none => shrinkLoopBeforeFix ks m (sk ++ [k])
+    | some v => if v.isEmpty then shrinkLoopBeforeFix ks (mapErase k m) sk else shrinkLoopBeforeFix ks m sk
+
+def batchGetBeforeFix (snap buf : List KV) (keys : List Bytes) : List KV :=
+  let bufferValues := bufBatchGet buf keys
+  if bufferValues.isEmpty then snapBatchGet snap keys else
+  let (bufferValues, shrinkKeys) := shrinkLoopBeforeFix keys bufferValues []
+  mergeInto (snapBatchGet snap shrinkKeys) bufferValues
+
 
 theorem lookup_mapErase (k : Bytes) (m : List KV) (k' : Bytes) :
     lookup (mapErase k m) k' = if k' = k then none else lookup m k' := by
@@ -1107,17 +1556,17 @@ theorem lookup_mapErase (k : Bytes) (m : List KV) (k' : Bytes) :
       · subst h1; simp [h0]
       · simp [h1]
 
-theorem shrinkLoopAsIs_spec (keys : List Bytes) : ∀ (m : List KV) (sk : List Bytes), keys.Nodup →
-    (shrinkLoopAsIs keys m sk).2 = sk ++ keys.filter (fun k => (lookup m k).isNone) ∧
-    ∀ k, lookup (shrinkLoopAsIs keys m sk).1 k =
+theorem shrinkLoopBeforeFix_spec (keys : List Bytes) : ∀ (m : List KV) (sk : List Bytes), keys.Nodup →
+    (shrinkLoopBeforeFix keys m sk).2 = sk ++ keys.filter (fun k => (lookup m k).isNone) ∧
+    ∀ k, lookup (shrinkLoopBeforeFix keys m sk).1 k =
       if k ∈ keys ∧ lookup m k = some [] then none else lookup m k := by
   induction keys with
-  | nil => intro m sk _; simp [shrinkLoopAsIs]
+  | nil => intro m sk _; simp [shrinkLoopBeforeFix]
   | cons x xs ih =>
     intro m sk hnd
     rw [List.nodup_cons] at hnd
     obtain ⟨hx, hxs⟩ := hnd
-    simp only [shrinkLoopAsIs]
+    simp only [shrinkLoopBeforeFix]
     cases hl : lookup m x with
     | none =>
       simp only
@@ -1158,13 +1607,13 @@ theorem shrinkLoopAsIs_spec (keys : List Bytes) : ∀ (m : List KV) (sk : List B
             simp [hl, this, hx]
           · simp [hk]
 
-theorem lookup_batchGetAsIs (snap buf : List KV) (keys : List Bytes) (hnd : keys.Nodup) (k : Bytes) :
-    lookup (batchGetAsIs snap buf keys) k = lookup (batchGet snap buf keys) k := by
-  unfold batchGetAsIs batchGet
+theorem lookup_batchGetBeforeFix (snap buf : List KV) (keys : List Bytes) (hnd : keys.Nodup) (k : Bytes) :
+    lookup (batchGetBeforeFix snap buf keys) k = lookup (batchGet snap buf keys) k := by
+  unfold batchGetBeforeFix batchGet
   simp only
   split
   · rfl
-  · obtain ⟨h1, h2⟩ := shrinkLoopAsIs_spec keys (bufBatchGet buf keys) [] hnd
+  · obtain ⟨h1, h2⟩ := shrinkLoopBeforeFix_spec keys (bufBatchGet buf keys) [] hnd
     rw [lookup_mergeInto, lookup_mergeInto, h1, h2 k, List.nil_append,
       lookup_filter_visible _ (bufBatchGet_sorted buf keys), lookup_bufBatchGet]
     by_cases hk : k ∈ keys
@@ -1175,5 +1624,11 @@ theorem lookup_batchGetAsIs (snap buf : List KV) (keys : List Bytes) (hnd : keys
         · subst hv; simp [hk, visible]
         · simp [hk, visible, hv]
     · simp [hk, visible]
+
+
+/-- snapshot {01 ↦ aa}, key deleted in the buffer, key list [01, 01]: the old loop handed the snapshot value back -/
+theorem batchGetBeforeFix_resurrects :
+    lookup (batchGetBeforeFix [([1], [0xaa])] [([1], [])] [[1], [1]]) [1] = some [0xaa] ∧
+    lookup (batchGet [([1], [0xaa])] [([1], [])] [[1], [1]]) [1] = none := by decide
 
 end CGV.UnionIter
